@@ -199,6 +199,7 @@ class Interp:
         self.unanswered = []  # UID FETCH requests for a known message that returned nothing for it
         self.selfcopied = set()  # UIDVALIDITYs of mailboxes that were the destination of their own COPY/MOVE
         self.tag_taint = False
+        self.split_delivered = False
         self.delivered_seen = {}  # tok -> bool | None
         self.seen_oracle = bool(self.prog.get("seen_oracle"))
         self.probe_p = float(self.prog.get("probe_p", 1.0))
@@ -853,7 +854,13 @@ class Interp:
                     continue
                 rev = {v: k for k, v in FLAG_TO_SEQ.items()}
                 fl.add(rev.get(n, n))
-            if frozenset(fl) != m.flags:
+            want = m.flags
+            if "Seen" in inseq and "unseen" in inseq and self.split_delivered:
+                # only an MH agent's second step (adding `unseen` after the server had already looked
+                # at the file) can put a message into both: the agent's doing, seen-ness not compared
+                fl.discard("\\seen")
+                want = want - {"\\seen"}
+            if frozenset(fl) != want:
                 self.V(
                     "C13", "mh_sequences_diverge", mailbox=box.name, key=key, uid=m.uid,
                     expected=sorted(m.flags), mh=sorted(inseq), why=why,
@@ -1998,6 +2005,7 @@ class Interp:
             box.msgs[-1].born = self.loop.time()
             if unseen and op.get("split"):
                 box.msgs[-1].amb = box.msgs[-1].mh_amb = True
+                self.split_delivered = True
         self.env.fired("delivery")
         for tok in toks:
             # what a plain (one-step, mtime-advancing) delivery gave the message; None = ambiguous by construction
@@ -2397,7 +2405,8 @@ class NamespaceOps:
         if sess is None or ms.dead:
             return
         name = op["name"]
-        key = "inbox" if name.lower() == "inbox" else name
+        bare = name[1:] if name.startswith("/") else name  # one leading hierarchy separator is not part of the name
+        key = "inbox" if bare.lower() == "inbox" else bare
         before = self.dir_snapshot() if self.compare else None
         line = f"DELETE {quote(name)}"
         r = await self.run_cmd(sess, ms, line)
